@@ -29,7 +29,17 @@ func verifC20State(k Keeper, ctx sdk.Context) {
 	verifSetParams(k, ctx)
 	mode := verif_choice("stateMode", 3)
 	if mode == 0 {
-		return // empty module state
+		// empty module state: no pools exist, so governance may have set the denom to anything the parameter validation accepts
+		p := types.Params{Denom: verif_str_in("paramsDenom", vDenom, "a", "1x", "")}
+		verif_assume(p.Validate() == nil)
+		if err := k.SetParams(ctx, p); err != nil {
+			verif_fail("SetParams rejects parameters that Validate accepted")
+		}
+		if verif_choice("typesWithoutPools", 2) == 1 {
+			verifVestingType(k, ctx, "vt") // vesting types come with the genesis; pools need not exist yet
+			W.bank.fund(verifAddr(vOwner), vDenom, verif_int_range("ownerBalance", "0", vMaxAmt))
+		}
+		return
 	}
 	vtName := "vt"
 	verifVestingType(k, ctx, "vt")
